@@ -23,6 +23,7 @@ THEOREMS = [
     "Mesa.Cont.C10_exp_removed_agent_is_dead",
     "Mesa.Cont.C10_exp_remove_lifecycle",
     "Mesa.Cont.C10_exp_agent_api",
+    "Mesa.Cont.C10_exp_raw_view_write",
     "Mesa.Cont.C10_legacy_neighbors_exact",
     "Mesa.Cont.C10_legacy_neighbors_mem",
     "Mesa.Cont.C10_legacy_exclude_center",
@@ -74,7 +75,7 @@ ASSUMPTIONS = [
 ]
 RULE = ("random histories over both classes (50/50; 10% from the rejecting-call stream of C18): bounds with negative / non-unit origins and sizes 1/64 .. 15.6, torus on/off, "
         "experimental: 1-D .. 5-D (2-D and 3-D most often) and initial capacities {0,1,2,3,5,50,100}; 4-45 ops from place/new+set, move/set (12% per-axis out of bounds, "
-        "coincident and boundary positions), `position += v` and item writes into the returned position (experimental), remove, every agent method on removed agent objects, pos, agents, radius / k-nearest (k in 0..n+1, often n) / neighbour queries incl. on the "
+        "coincident and boundary positions), `position += v`, item writes into the returned position, raw writes through the `space.agent_positions` view and the ignored `pos` setter (experimental), remove, every agent method on removed agent objects, pos, agents, radius / k-nearest (k in 0..n+1, often n) / neighbour queries incl. on the "
         "empty space and right after a cached read + move, distances and heading/difference vectors (30% of the toroidal ones exactly half the size apart: the tie of the heading rule); radii aimed at exact agent distances; "
         "non-trivial = >= 2 agents in the space at some point, a mutation after the first query and a query answer naming an agent; "
         "distinct = distinct op-line sequences (sha1)")
@@ -97,7 +98,7 @@ run_impl = C.run_impl
 oracle = C.oracle
 
 QUERIES = ("nbrs", "radius", "knn", "nir", "nn", "dists")
-MUTATORS = ("place", "move", "set", "remove", "new", "iadd")
+MUTATORS = ("place", "move", "set", "remove", "new", "iadd", "raw")
 
 
 def nontrivial(sc, obs):
@@ -143,6 +144,8 @@ def tags(sc, obs):
                 dead.add(w[1])
             if w[0] == "iadd" and o == "err OutOfBounds":
                 yield "branch:iadd-rejected"
+            if w[0] == "raw" and o == "ok":
+                yield "branch:write-through-agent_positions-view"
             if w[0] == "poke" and o == "ok":
                 yield "branch:write-into-returned-position"
         if o.startswith("err"):
